@@ -6,11 +6,11 @@ require (
 	github.com/anishathalye/porcupine v1.3.0
 	github.com/couchbase/sg-bucket v0.0.0-20240606153601-d152b90edccb
 	github.com/couchbaselabs/rosmar v0.0.0
+	github.com/mattn/go-sqlite3 v1.14.24
 )
 
 require (
 	github.com/google/uuid v1.6.0 // indirect
-	github.com/mattn/go-sqlite3 v1.14.24 // indirect
 	github.com/robertkrimen/otto v0.0.0-20211024170158-b87d35c0b86f // indirect
 	golang.org/x/text v0.15.0 // indirect
 	gopkg.in/sourcemap.v1 v1.0.5 // indirect
